@@ -208,6 +208,10 @@ def run_proc(cmd, stdin=b'', cpu=20, wall=120, cwd=None, env=None, stdin_file=No
     rc = p.returncode
     sig = -rc if rc is not None and rc < 0 else None
     cpu_killed = (not wt) and sig == signal.SIGXCPU
+    if sig == signal.SIGKILL and not wt:
+        # SIGKILL that this harness did not send: the kernel's out-of-memory killer (or an operator).  No program under
+        # test sends it to itself; it is treated like the wall-clock watchdog: inconclusive, never a verdict.
+        wt = True
     return Proc(rc, sig, out, err, wt, cpu_killed)
 
 
